@@ -535,6 +535,12 @@ HAND_TABLES = [   # smallest witnesses of the two refuted statements (Props/C06.
 ]
 # a final table with more than 1000 ranked functions whose description lengths lie within 2.2 nats of the best one (complexity >= 7
 # in the shipped bases): every row has a non-negligible relative probability, also those far down the table
+# likelihoods that differ in the ninth significant digit (exactly representable): different values are NOT repeats of each other,
+# however close; only an exactly equal likelihood is a duplicate
+_S = 2 ** 20
+NEAR_TIE_TABLE = {"U": 5, "npar": 1, "s": _S,
+                  "rows": [[1234 * _S, 2 * _S, 0, 3 * _S, [0]], [1234 * _S + 1, 2 * _S, 1, 3 * _S + 7, [1]], [1234 * _S + 4096, 2 * _S, 2, 3 * _S, [2]],
+                           [1234 * _S, 2 * _S, 3, 3 * _S + _S, [3]], [1236 * _S, 2 * _S, 4, 3 * _S, [4]]]}
 LONG_TABLE = {"U": 1100, "npar": 1, "s": 512,
               "rows": [[(u * 7919) % 1100, 5 * 512, u, 3 * 512, [u]] for u in range(1100)]}
 
@@ -557,7 +563,7 @@ def search(ctx):
     # an extra batch with its own stream: more -inf, tables that may have < 2 rows
     n = 150 if ctx.quick else 3000
     R = esrv.rng(ctx.seed, "C06/search")
-    tabs = HAND_TABLES + [LONG_TABLE] + [gen_table(R, allow_crash=True, more_ninf=True) for _ in range(n)]
+    tabs = HAND_TABLES + [LONG_TABLE, NEAR_TIE_TABLE] + [gen_table(R, allow_crash=True, more_ninf=True) for _ in range(n)]
     outs = []
     try:
         outs = run_impl_parallel(ctx, [(tabs, 1)])[0]
